@@ -6,6 +6,7 @@ pub mod c06;
 pub mod c07;
 pub mod c08;
 pub mod c09;
+pub mod c10;
 pub mod judge;
 pub mod universe;
 pub mod c12;
@@ -16,6 +17,6 @@ pub mod lexemes;
 use crate::engine::PropDef;
 
 pub fn registry() -> &'static [PropDef] {
-    static REG: &[PropDef] = &[c01::DEF, c03::DEF, c04::DEF, c05::DEF, c06::DEF, c07::DEF, c08::DEF, c09::DEF, c12::DEF, c14::DEF];
+    static REG: &[PropDef] = &[c01::DEF, c03::DEF, c04::DEF, c05::DEF, c06::DEF, c07::DEF, c08::DEF, c09::DEF, c10::DEF, c12::DEF, c14::DEF];
     REG
 }
